@@ -162,10 +162,11 @@ fn integrity_unit() -> Unit {
 }
 
 fn ids_unit(depth: usize) -> Unit {
-    let alphabet = vec![Op::CreateTopic(T0), Op::DeleteTopic(T0), Op::CreateTopic(T1), Op::DeleteTopic(T1), Op::Publish(T0, 2), Op::Publish(T1, 1)];
+    // (TQ is a topic of another project: ids are unique across the whole server, not per project)
+    let alphabet = vec![Op::CreateTopic(T0), Op::DeleteTopic(T0), Op::CreateTopic(T1), Op::DeleteTopic(T1), Op::CreateTopic(TQ), Op::Publish(T0, 2), Op::Publish(T1, 1), Op::Publish(TQ, 1)];
     let mut c = SeqCfg {
         name: format!("seq/unique-ids/n{}", depth),
-        desc: format!("create / delete / re-create two topic names and publish: all message ids ever returned are pairwise distinct and increasing per topic incarnation; all sequences of length {}", depth),
+        desc: format!("create / delete / re-create two topic names (and create a topic in another project) and publish: all message ids ever returned are pairwise distinct and increasing per topic incarnation; all sequences of length {}", depth),
         setup: vec![],
         alphabet,
         depth,
@@ -316,7 +317,7 @@ pub fn units(thorough: bool) -> Vec<Unit> {
         integrity_unit(),
         client_fields_unit(),
         many_topics_unit(),
-        ids_unit(if thorough { 9 } else { 6 }),
+        ids_unit(if thorough { 8 } else { 6 }),
         concurrent_ids_unit("create‖create;publish", vec![vec![CreateTopic(T0), Publish(T0, 2)], vec![CreateTopic(T1), Publish(T1, 2)]], false, d),
         concurrent_ids_unit("delete;create‖create;publish", vec![vec![DeleteTopic(T0), CreateTopic(T0), Publish(T0, 1)], vec![CreateTopic(T1), Publish(T1, 1)], vec![Publish(T0, 1)]], true, d),
         concurrent_ids_unit("delete‖publish‖publish", vec![vec![DeleteTopic(T0)], vec![Publish(T0, 1), Publish(T0, 2)], vec![Publish(T0, 1)]], true, d),
